@@ -16,7 +16,9 @@ Arguments Panic {A}.
 Definition bind {A B} (x : outcome A) (f : A -> outcome B) : outcome B :=
   match x with Ok a => f a | Err => Err | Panic => Panic end.
 Notation "'do' x <- e ; k" := (bind e (fun x => k))
-  (at level 200, x pattern, e at level 100, k at level 200, right associativity).
+  (at level 200, x name, e at level 100, k at level 200, right associativity).
+Notation "'do' ' p <- e ; k" := (bind e (fun x => match x with p => k end))
+  (at level 200, p pattern, e at level 100, k at level 200, right associativity).
 
 Definition of_option {A} (o : option A) : outcome A :=
   match o with Some a => Ok a | None => Panic end.
